@@ -15,6 +15,7 @@ package chainhistory
 import (
 	"crypto/ecdsa"
 	"encoding/hex"
+	"encoding/json"
 	"fmt"
 	"os"
 	"path/filepath"
@@ -119,7 +120,20 @@ func loadCompass() {
 	}
 	b, err := os.ReadFile(filepath.Join(repoDir(), "x/evm/keeper/testdata/sample-abi.json"))
 	must(err)
-	compassABIJSON = string(b)
+	// only the entries the histories use (the full ABI is 21 kB and the keeper JSON-encodes every chain info - with its ABI -
+	// several times per block, which makes blocks five times slower without exercising anything else)
+	var entries []map[string]any
+	must(json.Unmarshal(b, &entries))
+	var keep []map[string]any
+	for _, en := range entries {
+		switch en["name"] {
+		case "submit_logic_call", "deploy_contract", "update_valset", "ContractDeployed":
+			keep = append(keep, en)
+		}
+	}
+	kb, err := json.Marshal(keep)
+	must(err)
+	compassABIJSON = string(kb)
 	compassABI, err = abi.JSON(strings.NewReader(compassABIJSON))
 	must(err)
 	bc, err := os.ReadFile(filepath.Join(repoDir(), "x/evm/keeper/testdata/sample-bytecode.out"))
@@ -249,7 +263,7 @@ func newWorldOf(kind worldKind, target int64) (w *world, stack string) {
 		}
 		// compass deployed and attested on both chains (what the attestation of the upload message does)
 		k := e.App.EvmKeeper
-		sc, err := k.SaveNewSmartContract(ctx, compassABIJSON, compassBytecode)
+		sc, err := k.SaveNewSmartContract(ctx, compassABIJSON, compassBytecode[:64]) // (the bytecode is only needed to deploy compass itself)
 		if err != nil {
 			return err
 		}
